@@ -436,8 +436,23 @@ func (nc *nodeCase) oracleRules(op string) {
 		}
 	}
 	if want != "" && want != bestName {
-		// which stored block does the fork choice point at instead?
-		nc.c.Fail("C13:valid-best-not-selected", fmt.Sprintf("after %s: the valid fork-choice winner is %s (height %d) but the node's best block is %s (height %d)", op, want, nc.nm.blocks[want].Height, bestName, best.Height))
+		// which stored block does the fork choice point at instead? Known finding F32 covers exactly
+		// one situation: a stored block with a broken rule on its chain (a context mutant or a block
+		// on top of one) is at least as high as the valid winner, so the fork choice keeps pointing
+		// at a branch that cannot be attached. Anything else is a different failure.
+		sigName := "C13:valid-best-not-selected"
+		for name := range nc.delivered {
+			if !nc.invalidChain(name) {
+				continue
+			}
+			b := nc.nm.blocks[name]
+			h := b.Hash()
+			if _, err := n.store.GetBlockHeader(&h); err == nil && b.Height >= nc.nm.blocks[want].Height {
+				sigName = "C13:valid-best-not-selected:stored-invalid-branch-at-least-as-high"
+				break
+			}
+		}
+		nc.c.Fail(sigName, fmt.Sprintf("after %s: the valid fork-choice winner is %s (height %d) but the node's best block is %s (height %d)", op, want, nc.nm.blocks[want].Height, bestName, best.Height))
 	}
 }
 
